@@ -1413,6 +1413,49 @@ def _join_fold(idx: Index, res: Result) -> int:
     return n_inst
 
 
+def dt_exact_rule(idx: Index, res: Result, rule: str = "DTEXACT") -> int:
+    """DTEXACT (round 10): 'for any dt' - the dt handed to the generated model is the number written in the <dt> tag or its exact
+    reciprocal.  Decided on the backward slice of every store into specs["dt"] in parse_xmile (helpers inlined by the view): the only
+    operations on that flow are subscripts, str/strip/lower/replace on the text, float()/int() and the division 1 / x.  Anything else
+    (round, Fraction(...).limit_denominator, Decimal.quantize, np.round, a tolerance snap) makes some legal dt a different number - the
+    model then integrates on another grid than the file specifies.  Returns the number of stores examined."""
+    fi = idx.func(XMILE, "parse_xmile")
+    fn = fi.node
+    def is_dt_target(t: ast.AST) -> bool:
+        return isinstance(t, ast.Subscript) and const_str(t.slice) == "dt" and isinstance(t.value, ast.Name)
+    stores = [n for n in walk_no_nested(fn) if isinstance(n, ast.Assign) and len(n.targets) == 1 and is_dt_target(n.targets[0])]
+    ALLOW = {"int", "float", "str", "strip", "lstrip", "rstrip", "lower", "upper", "replace", "get", "keys", "deepcopy", "format"}
+    assigns: Dict[str, List[ast.Assign]] = {}
+    for n in walk_no_nested(fn):
+        if isinstance(n, ast.Assign) and len(n.targets) == 1 and isinstance(n.targets[0], ast.Name):
+            assigns.setdefault(n.targets[0].id, []).append(n)
+    for st in stores:
+        seen: Set[str] = {st.targets[0].value.id}        # the specs record itself (the parsed document) is where the text comes from
+        work = [st.value]
+        exprs = []
+        while work:
+            e = work.pop()
+            exprs.append(e)
+            for y in ast.walk(e):
+                if isinstance(y, ast.Name) and y.id in assigns and y.id not in seen:
+                    seen.add(y.id)
+                    work.extend(a.value for a in assigns[y.id])
+        bad = []
+        for e in exprs:
+            for y in ast.walk(e):
+                if isinstance(y, ast.Call) and call_name(y) not in ALLOW:
+                    bad.append(y)
+                if isinstance(y, ast.BinOp) and not (isinstance(y.op, ast.Div) and isinstance(y.left, ast.Constant) and y.left.value in (1, 1.0)):
+                    bad.append(y)
+        res.check(rule, "dt stored by parse_xmile is the tag's number or its exact reciprocal (%s)" % norm_stmt(st)[:60], not bad, fi.loc(st), fi.qual,
+                  norm_stmt(st)[:100],
+                  "the dt of the run specs passes through `%s` on its way from the <dt> tag into specs['dt']: not an exact conversion of the "
+                  "number in the file, so for some legal dt the model integrates with a different step than specified"
+                  % (src(bad[0])[:80] if bad else ""), key="%s/parse_xmile/%s" % (rule, call_name(bad[0]) if bad and isinstance(bad[0], ast.Call) else "arith"))
+    res.floor("stores into specs['dt'] in parse_xmile", len(stores), 1)
+    return len(stores)
+
+
 def check_c04(idx: Index, tier: str, res: Result) -> None:
     res.explanation = ("(1) the IR literal built by StockExpressions has the explicit-Euler shape IF(TIME<=STARTTIME, init, PREVIOUS(self) + "
                        "DT*PREVIOUS(net flow)) with the three net-flow forms (inflows), (-1*(outflows)), (inflows-(outflows)); (2) previous() "
@@ -1421,8 +1464,10 @@ def check_c04(idx: Index, tier: str, res: Result) -> None:
                        "(4) sibling agreement: the rendered XMILE stock equals the DSL stock's normal form, LERP has the clamps and linear "
                        "interpolation of Model._lookup; (5) 'any dt': the generated model must key its memo on normalised times.")
     res.rules = ["EULER: shape of the stock IR literal and of the rendered stock text", "JOIN: every inflow/outflow name enters the joined expression once (fold is loop-carried)", "PREV: regex rewrite applied to extracted templates",
-                 "NONNEG: wrap and rendering", "SIBLING: XMILE vs DSL normal forms, LERP vs _lookup", "TIME: time kind in the generated class"]
+                 "NONNEG: wrap and rendering", "SIBLING: XMILE vs DSL normal forms, LERP vs _lookup", "TIME: time kind in the generated class",
+                 "DTEXACT: the dt of the run specs is the tag's number or its exact reciprocal (slice of parse_xmile)"]
     res.not_decided = ["trajectories of concrete models", "Stella compatibility of built-ins", "array expansion of arrayed stocks"]
+    dt_exact_rule(idx, res)
     renderers, skipped = extract_py(idx, res)
     byname: Dict[str, List[XRenderer]] = {}
     for r in renderers:
